@@ -18,6 +18,11 @@ CHECKS = [
      "note": REAL + "; numeric mode uses dyadic parameter values (exact float folding), mainstream origins only with symbolic parameters; lanes numeric on the CasADi side when phi is given",
      "technique": "compiler-IR (CasADi SXFunction) to SMT translation + SMT equivalence with the symbolically executed NumPy step",
      "engine": "sx2smt", "also": ["symx+fork", "discharge"]},
+    {"id": "C07", "category": "model_checking",
+     "text": "Bounded SMT check: for every topology of the family (each accepted by the real is_valid) and a covering set of positivity options / input styles, the real NumPy step is executed symbolically on all paths and the CasADi step + 12 compilations are executed; no path may raise, shapes must be preserved, and for every output component of the NumPy run and of the level-0 IR the solver proves 'admissible domain (zeros included) AND path => value defined (no division by zero, log of non-positive, invalid power)'. Exceptions and non-finite models are replayed on floats.",
+     "note": REAL + "; finiteness = definedness over the reals (overflow outside); min/max treated as NaN-propagating; engine-own-variable and boundary-point runs are plain execution companions",
+     "technique": "path-exhaustive symbolic execution of the real code + SMT proof of definedness obligations, per topology",
+     "also": ["sx2smt", "discharge"]},
 ]
 _TODO = "check not built yet in this session (machinery in progress); see DESIGN.md section 3"
-NOT_APPLICABLE = [{"property_id": f"C{i:02d}", "reason": _TODO} for i in range(4, 20)]
+NOT_APPLICABLE = [{"property_id": f"C{i:02d}", "reason": _TODO} for i in list(range(4, 7)) + list(range(8, 20))]
